@@ -21,6 +21,9 @@ pub fn doc_text(classes: usize, flavour: u64) -> String {
     t.push_str(&format!(
         "defvar v{flavour} = {flavour};\nassert !ge(v{flavour}, 0), \"never negative\";\ndump \"v is \" # v{flavour};\nforeach i = [1, 2] in def f#i : Base;\nif !eq(v{flavour}, 1) then {{ def t1 : Base; }} else {{ def e1 : Base; }}\nlet b = 2 in def l1 : Base;\ndefset list<Base> S = {{ def m1 : Base; }}\nmulticlass M<int k> {{ def _a : Base {{ int q = k; }} }}\ndefm X : M<3>;\n"
     ));
+    // shapes on which a walk of the analysis must end by itself (a multiclass that is its own parent, a name that
+    // begins like the records of its defm and is none of them): a worker that does not come back keeps its snapshot
+    t.push_str("multiclass SM : SM { def _q : Base; }\ndefm XS : SM;\ndef uses_xs { Base known = XS_q; int unknown = XSJ; }\n");
     t
 }
 
